@@ -34,10 +34,18 @@ m = {
  "notes": "All checks: ./check <ID> <quick|thorough>; exit 0 held / 1 VIOLATION / 2 machinery failure. See DESIGN.md.",
 }
 exec(open(os.path.join(V, "tools", "manifest_engines.py")).read()) if os.path.exists(os.path.join(V, "tools", "manifest_engines.py")) else None
+TRACE_OF = {**{k: "Trace_Workspace (random array programs)" for k in ("C01", "C04", "C05", "C06", "C07", "C13", "C15")},
+            **{k: "Trace_Stocks (histories on one stock object, exact fractions)" for k in ("C03", "C08", "C09", "C10", "C16", "C17")},
+            **{k: "Trace_Tables (histories of imports into one array)" for k in ("C11", "C12")}}
+L2_OF = {"C03": "StocksImpl", "C09": "StocksImpl", "C10": "StocksImpl", "C06": "ArrayStore"}
 for p in props:
     pid = p["id"]
     if pid in CLAIMED:
-        c = CLAIMED[pid]
+        c = dict(CLAIMED[pid])
+        if pid in TRACE_OF and "Trace_" not in c["technique"]:
+            c["technique"] += "; traces recorded from the real code validated by TLC against the same specification: " + TRACE_OF[pid]
+        if pid in L2_OF and L2_OF[pid] not in c["technique"]:
+            c["technique"] += f"; L2 refinement {L2_OF[pid]}.tla checked with TLC (pre-fix algorithm refuted)"
         m["checks"].append({
             "property_id": pid, "quick_cmd": f"./check {pid} quick", "thorough_cmd": f"./check {pid} thorough",
             "evidence_file": f"/verif/evidence/{pid}.json", "replay_cmd_template": f"./check {pid} --replay {{path}}",
